@@ -34,6 +34,30 @@ BadCanonCases ==
 EmptyCase == Case("empty", "Patient", "", "", "", "", "", "", "")
 PoolCases(types) == {Case("pool", t, "A1-b.2", "1", "http://example.org/fhir", "mixed", "v1", "https", NextType(t)) : t \in types}
 
+(* hand-picked edge strings around every grammar, judged like the byte-mutated *)
+(* neighbours (kind "raw": rejected with an error, or accepted consistently;   *)
+(* accepted as the specification's parse when that is defined)                 *)
+EdgeStrings == <<
+  "http:///Patient/1", "http:////Patient/1", "https://Patient/1", "http://Patient/1/Patient/1",
+  "Patient/1/_history", "Patient/1/_history/", "Patient//1", "/Patient/1", "Patient/1/", "Patient/", "Patient", "/",
+  "patient/1", "PATIENT/1", "Patient/1/_History/2", "Patient/1/_history/2/3", "Patient/1/_history/2/", "Patient/_history/1",
+  "Patient/1?x=1", "Patient/1 ", " Patient/1", "Patient/ 1", "Patient/1/_history/ 2",
+  "urn:uuid:", "urn:", "urn:oid:", "urn:uuid:5a17b7c2-e01c-4bc7-b973-31d4156b11d", "urn:uuid:5a17b7c2-e01c-4bc7-b973-31d4156b11d7/x",
+  "URN:UUID:5a17b7c2-e01c-4bc7-b973-31d4156b11d7", "urn:oid:1.2.", "urn:oid:3.1", "urn:isbn:0451450523",
+  "http://", "https://", "http:", "http:/", "http://example.org", "http://example.org/", "http://example.org//",
+  "http://example.org/Patient", "http://example.org/Patient/", "http://example.org//Patient/1", "http://example.org/fhir///Patient/1",
+  "http://example.org/a//b/Patient/1",
+  "ftp://example.org/Patient/1", "HTTP://example.org/Patient/1", "http://example.org:80/Patient/1", "http://user@example.org/Patient/1",
+  "http://example.org/fhir/../Patient/1", "http://exa mple.org/Patient/1", "http://example.org/Patient/1#", "http://example.org/Patient/1#frag",
+  "http://example.org/my_store/Patient/1", "http://example.org/%41/Patient/1", "http://example.org/%zz/Patient/1", "http://example.org/a$b/Patient/1",
+  "http://example.org/Patient/1/_history/2", "http://example.org/_history/Patient/1", "http://example.org/Patient/_history/Patient/1",
+  "#", "##", "#a#b", "#a/b", "# ", "#a b",
+  "|", "a|b", "Patient/1|2", "http://x|", "http://x#", "http://x|#", "http://x|1#", "http://x#f|1", "http://x|1|2", "http://x#a#b",
+  "http://x|1.0#" , "http://x| 1", "http://x|1#a b", "x", "x|1", "x#f",
+  "%", "%zz", ":", "a:", ":a", "1:a", "a:b", "mailto:someone@example.org", "data:text/plain,hi",
+  "Binary/1", "Bundle/1", "Parameters/1", "DomainResource/1", "Resource/1", "MetadataResource/1", "Medication/1", "MedicationRequest/1", "MedicationX/1"
+>>
+EdgeCases == {Case("raw", "Patient", EdgeStrings[i], "", "", "e" \o ToString(i), "", "", "edge-" \o ToString(i)) : i \in 1..Len(EdgeStrings)}
 NoType == {""}
 (* parts 1..7 are common to every scope *)
 CommonPart(k, t) ==
@@ -43,7 +67,7 @@ CommonPart(k, t) ==
     [] k = 4 -> BareFragCases({t})
     [] k = 5 -> CanonCases(RangeOf(CanonUrlPool), RangeOf(CanonVerPool), RangeOf(CanonFragPool))
     [] k = 6 -> BadCanonCases
-    [] k = 7 -> {EmptyCase}
+    [] k = 7 -> {EmptyCase} \cup EdgeCases
 NCommon == 7
 
 (* quick: per type a covering selection (every id class; every base; every    *)
@@ -140,7 +164,7 @@ InvRoundTrip ==
 (* (the input itself when it has no redundant slashes), and parsing that     *)
 (* again gives the same information.                                         *)
 InvCanonicalForm ==
-  Generated /\ cs.kind \in {"str", "rest", "frag", "urn", "canon", "empty"} =>
+  Generated /\ cs.kind \in {"str", "raw", "rest", "frag", "urn", "canon", "empty"} =>
      LET s == den.text
          p == den.want
      IN p.k = "ok" =>
